@@ -3,7 +3,6 @@
 //verif:dir p2p/protocol/circuitv2/relay
 //verif:subst p2p/protocol/circuitv2/relay time.Now verifTimeNow
 //verif:subst p2p/protocol/circuitv2/relay github.com/multiformats/go-multiaddr/net.ToIP verifToIP
-//verif:hook p2p/protocol/circuitv2/relay isRelayAddr
 //verif:hook p2p/protocol/circuitv2/relay Relay.handleError
 //verif:hook p2p/protocol/circuitv2/relay Relay.writeResponse
 //verif:hook p2p/protocol/circuitv2/relay makeReservationMsg
@@ -65,8 +64,26 @@ type vC11conn struct {
 	addr ma.Multiaddr
 }
 
-func (c *vC11conn) RemotePeer() peer.ID           { return c.p }
-func (c *vC11conn) RemoteMultiaddr() ma.Multiaddr { return c.addr }
+func (c *vC11conn) RemotePeer() peer.ID { return c.p }
+func (c *vC11conn) RemoteMultiaddr() ma.Multiaddr {
+	if vC11relayed { // the peer reached this relay through another relay
+		// parsed by the real parser (ma.StringCast is an opaque atom in the symbolic run): the relay looks for the circuit component
+		a, err := ma.NewMultiaddr("/ip4/9.9.9.9/tcp/4001/p2p/QmYyQSo1c1Ym7orWxLYvCrM2EmxFTANf8wXmmE7DWjhx5N/p2p-circuit")
+		if err != nil {
+			panic(err)
+		}
+		return a
+	}
+	return c.addr
+}
+
+// whether a connection is marked limited says nothing about how the peer arrived (a relay with unlimited
+// circuits marks nothing): the flag is free
+func (c *vC11conn) Stat() network.ConnStats {
+	return network.ConnStats{Stats: network.Stats{Limited: vC11limited}}
+}
+
+var vC11limited bool
 
 type vC11scope struct {
 	network.StreamScope
@@ -103,12 +120,12 @@ type vC11stream struct {
 	closedR  int
 }
 
-func (s *vC11stream) Conn() network.Conn         { return s.conn }
-func (s *vC11stream) Scope() network.StreamScope { return s.scope }
-func (s *vC11stream) Close() error               { s.closed++; return nil }
-func (s *vC11stream) Reset() error               { s.resets++; return nil }
-func (s *vC11stream) CloseWrite() error          { s.closedW++; return nil }
-func (s *vC11stream) CloseRead() error           { s.closedR++; return nil }
+func (s *vC11stream) Conn() network.Conn               { return s.conn }
+func (s *vC11stream) Scope() network.StreamScope       { return s.scope }
+func (s *vC11stream) Close() error                     { s.closed++; return nil }
+func (s *vC11stream) Reset() error                     { s.resets++; return nil }
+func (s *vC11stream) CloseWrite() error                { s.closedW++; return nil }
+func (s *vC11stream) CloseRead() error                 { s.closedR++; return nil }
 func (s *vC11stream) SetDeadline(time.Time) error      { return nil }
 func (s *vC11stream) SetWriteDeadline(time.Time) error { return nil }
 func (s *vC11stream) Read(b []byte) (int, error) {
@@ -153,13 +170,13 @@ func (h *vC11host) NewStream(ctx context.Context, p peer.ID, pids ...protocol.ID
 }
 
 type vC11acl struct {
-	reserve, connect bool
+	reserve, connect   bool
 	askedSrc, askedDst peer.ID // what AllowConnect was asked about (the ACL may be directional)
 	askedAddr          ma.Multiaddr
 	asked              int
 }
 
-func (a *vC11acl) AllowReserve(peer.ID, ma.Multiaddr) bool          { return a.reserve }
+func (a *vC11acl) AllowReserve(peer.ID, ma.Multiaddr) bool { return a.reserve }
 func (a *vC11acl) AllowConnect(src peer.ID, addr ma.Multiaddr, dst peer.ID) bool {
 	a.asked++
 	a.askedSrc, a.askedAddr, a.askedDst = src, addr, dst
@@ -216,7 +233,6 @@ func vC11install() {
 		}
 		return nil, errors.New("no ip")
 	}
-	VerifHook_isRelayAddr = func(a ma.Multiaddr) bool { return vC11relayed }
 	vC11errors = nil
 	VerifHook_Relay_handleError = func(r *Relay, s network.Stream, st pbv2.Status) { vC11errors = append(vC11errors, st) }
 	VerifHook_Relay_writeResponse = func(r *Relay, s network.Stream, st pbv2.Status, rsvp *pbv2.Reservation, l *pbv2.Limit) error {
@@ -231,7 +247,7 @@ func vC11install() {
 }
 
 func vC11remove() {
-	VerifHook_isRelayAddr, VerifHook_Relay_handleError, VerifHook_Relay_writeResponse, VerifHook_makeReservationMsg = nil, nil, nil, nil
+	VerifHook_Relay_handleError, VerifHook_Relay_writeResponse, VerifHook_makeReservationMsg = nil, nil, nil
 	util.VerifHook_PeerToPeerInfoV2, util.VerifHook_NewDelimitedWriter, util.VerifHook_DelimitedReader_ReadMsg = nil, nil, nil
 }
 
@@ -283,6 +299,7 @@ func VerifC11aReserveHistory() {
 		}
 		p, a := 0, 0
 		vC11relayed, acl.reserve, vC11respFail = op == 9, op != 10, false
+		vC11limited = op == 9 && vBool()
 		if op < 6 {
 			p, a = op%3, op/3
 		}
@@ -372,6 +389,7 @@ func VerifC11bConnectExits() {
 		r.acl = acl
 	}
 	vC11relayed = stage == 1 && vBool()
+	vC11limited = vC11relayed && vBool()
 	malformed := stage == 1 && vBool()
 	util.VerifHook_PeerToPeerInfoV2 = func(p *pbv2.Peer) (peer.AddrInfo, error) {
 		if malformed {
@@ -475,9 +493,9 @@ func VerifC11bConnectExits() {
 // ---- C11.c copy kernel ----
 
 type vC11src struct {
-	ns   []int
-	errs []int // 0 none, 1 EOF, 2 other
-	i    int
+	ns    []int
+	errs  []int // 0 none, 1 EOF, 2 other
+	i     int
 	asked []int
 }
 
